@@ -109,15 +109,12 @@ TStamp ==
 OpName == IF Line.a = "resume" THEN Line.op ELSE Line.a
 IsOp(o) == l <= Len(TraceLog) /\ Line.a \in {o, "resume"} /\ OpName = o
 CallOfLine ==
-    CASE OpName = "store"  -> <<"store", Line.k, Line.n, Line.f>>
+    \* (the point at which a source fails is a prophecy of the generator; in a recorded run the
+    \* failure is simply observed, so recorded stores carry failAt = -1 and aborts may come anywhere)
+    CASE OpName = "store"  -> <<"store", Line.k, Line.n, -1>>
       [] OpName = "get"    -> <<"get", Line.k>>
       [] OpName = "delete" -> <<"delete", Line.k>>
       [] OpName = "update" -> <<"update", Line.k, Line.e>>
-
-TBlocked ==
-    /\ l <= Len(TraceLog) /\ Line.a \in {"store", "get", "delete", "update"} /\ Res = "blocked"
-    /\ Block(Line.p, CallOfLine)
-    /\ Consume(TRUE, TRUE)
 
 \* observed eviction outcome of a store: entries that were present before and are gone after
 ObsRemoved == {x \in Keys : entries[x].present /\ ~SnapEnt(x).present}
@@ -127,10 +124,15 @@ ObsEvict ==
     [ent |-> [x \in Keys |-> IF x \in ObsRemoved THEN NoEntry ELSE entries[x]],
      b |-> bytes - SumSizes(entries, ObsRemoved), removed |-> ObsRemoved, skipped |-> SkipKeys("evict_skip")]
 
+TBlocked ==
+    /\ l <= Len(TraceLog) /\ Line.a \in {"store", "get", "delete", "update"} /\ Res = "blocked"
+    /\ BlockR(Line.p, CallOfLine, IF BlockOver(CallOfLine) THEN ObsEvict ELSE NoEvict)
+    /\ Consume(TRUE, ~BlockOver(CallOfLine) => ObsRemoved = {})
+
 TStore ==
     /\ IsOp("store") /\ Res \in {"parked", "refused"}
-    /\ Line.v = nextVer[Line.k]
-    /\ StoreBeginR(Line.p, Line.k, Line.n, Line.f,
+    /\ Res = "parked" => Line.v = nextVer[Line.k]
+    /\ StoreBeginR(Line.p, Line.k, Line.n, -1,
                    IF ~StoreOver(Line.p) THEN NoEvict
                    ELSE IF Racy THEN Evict(StoreLimit, StoreHeld(Line.k)) ELSE ObsEvict)
     /\ Consume(TRUE, (Res = "refused") = (pc'[Line.p] = "idle")
@@ -151,7 +153,7 @@ TAbort ==
     /\ Is("abort") /\ Res \in {"srcfail", "empty"}
     /\ pc[Line.p] = "copying"
     /\ AbortEff(Line.p)
-    /\ Consume((Res = "empty") = (IsFile /\ op[Line.p].n = 0 /\ op[Line.p].failAt = -1 /\ ~F(Line, "forced", FALSE)), TRUE)
+    /\ Consume((Res = "empty") => (IsFile /\ op[Line.p].n = 0), TRUE)
 
 \* a commit step the code turned into an error, or an abort step the code turned into a success:
 \* structurally still a completed store call; the difference is a data mismatch
@@ -169,7 +171,7 @@ TAbortCommitted ==
 \* (A lookup that answers without waiting for a held shard lock is accepted as long as its answer
 \* is the one the specification gives for the current state: the property does not demand blocking.)
 TGet ==
-    /\ IsOp("get") /\ Res \in {"hit", "notfound", "fileread"}
+    /\ IsOp("get") /\ Res \in {"hit", "notfound", "fileread"} /\ ~(Res = "hit" /\ Line.h = 0)
     /\ GetBody(Line.p, Line.k)
     /\ LET e == entries[Line.k]
            modelHit == e.present /\ ~(IsFile /\ path[Line.k] = 0)
@@ -179,6 +181,18 @@ TGet ==
                        /\ Line.stale = e.exp
                        /\ Line.h > 0 /\ handles'[Line.h].open /\ ~handles[Line.h].open
                   ELSE ~modelHit, TRUE)
+
+\* a hit while every handle slot of the driver is taken: the driver closed the handle at once
+TGetNoSlot ==
+    /\ IsOp("get") /\ Res = "hit" /\ Line.h = 0 /\ FreeHandles = {}
+    /\ Ready(Line.p, <<"get", Line.k>>) /\ Finish(Line.p)
+    /\ entries[Line.k].present
+    /\ entries' = [entries EXCEPT ![Line.k].la = clock]
+    /\ clock' = Tick
+    /\ UNCHANGED <<path, objs, bytes, count, dead, lock, op, handles, nextVer, jan, limit, lastEv>>
+    /\ LET e == entries[Line.k]
+       IN Consume(/\ Line.size = e.size /\ Line.ov = e.ver /\ Line.ok = Line.k /\ Line.on = e.size
+                  /\ Line.stale = e.exp, TRUE)
 
 \* the real code reported a hit although no handle slot was free in the driver / model: cannot happen
 \* for generated schedules; treated as not explainable.
@@ -280,7 +294,7 @@ TraceInit == Init /\ l = 1 /\ bad = [line |-> 0] /\ TLCSet(1, [l |-> 1, bad |-> 
 
 TraceNext ==
     \/ TReset \/ TStamp \/ TBlocked \/ TStore \/ TChunk \/ TCommit \/ TAbort \/ TCommitFailed \/ TAbortCommitted
-    \/ TGet \/ TRead \/ TClose \/ TDelete \/ TUpdate \/ TExpire \/ TSetLimit
+    \/ TGet \/ TGetNoSlot \/ TRead \/ TClose \/ TDelete \/ TUpdate \/ TExpire \/ TSetLimit
     \/ TScan \/ TJanRemove \/ TJanEnsure \/ TJanEvict \/ TNoop \/ TQuiesce \/ TDestroy
 
 TraceSpec == TraceInit /\ [][TraceNext]_tvars
